@@ -229,7 +229,7 @@ func (a *c03Actor) acquire(hold bool) {
 				}
 			}
 		}()
-		local := rc.Conn.LocalAddr().String()
+		local := srv.Key(rc.Conn)
 		deadline := time.Now().Add(4 * time.Second)
 		for time.Now().Before(deadline) {
 			if ev, ok := s.Notify.WaitSessionFrom(20*time.Millisecond, a.from, "pub_start", local); ok {
@@ -742,8 +742,8 @@ func c03Start(c *fw.Ctx, i int) *c03Env {
 		c.Inconclusive("witness: %v", err)
 		return nil
 	}
-	_, ok1 := e.s.Notify.WaitSessionFrom(3*time.Second, 0, "sub_start", e.witF.Conn.LocalAddr().String())
-	_, ok2 := e.s.Notify.WaitSessionFrom(3*time.Second, 0, "sub_start", e.witR.RC.Conn.LocalAddr().String())
+	_, ok1 := e.s.Notify.WaitSessionFrom(3*time.Second, 0, "sub_start", srv.Key(e.witF.Conn))
+	_, ok2 := e.s.Notify.WaitSessionFrom(3*time.Second, 0, "sub_start", srv.Key(e.witR.RC.Conn))
 	if !ok1 || !ok2 {
 		e.stop()
 		c.Inconclusive("witnesses not admitted")
@@ -1193,8 +1193,8 @@ func c03PullAlone(c *fw.Ctx, i int, pk string) {
 	e.desc = fmt.Sprintf("pull-in-flight-alone publisher=%s", pk)
 	c.Describe("%s", e.desc)
 	c.Cell("pull-in-flight-alone/%s-arrives", pk)
-	for _, addr := range []string{e.witR.RC.Conn.LocalAddr().String(), e.witF.Conn.LocalAddr().String()} {
-		if addr == e.witR.RC.Conn.LocalAddr().String() {
+	for _, addr := range []string{srv.Key(e.witR.RC.Conn), srv.Key(e.witF.Conn)} {
+		if addr == srv.Key(e.witR.RC.Conn) {
 			e.witR.Close()
 		} else {
 			e.witF.Close()
@@ -1238,8 +1238,8 @@ func c03PullAlone(c *fw.Ctx, i int, pk string) {
 		e.finish(all)
 		return
 	}
-	e.s.Notify.WaitSessionFrom(3*time.Second, from, "sub_start", e.witF.Conn.LocalAddr().String())
-	e.s.Notify.WaitSessionFrom(3*time.Second, from, "sub_start", e.witR.RC.Conn.LocalAddr().String())
+	e.s.Notify.WaitSessionFrom(3*time.Second, from, "sub_start", srv.Key(e.witF.Conn))
+	e.s.Notify.WaitSessionFrom(3*time.Second, from, "sub_start", srv.Key(e.witR.RC.Conn))
 	e.stubMu.Lock()
 	close(e.withhold[p.stubIdx])
 	e.stubMu.Unlock()
@@ -1315,7 +1315,7 @@ func c03ForeignSubs(c *fw.Ctx, i int, hk string) {
 			if err != nil {
 				continue
 			}
-			closeFn, local = x.Close, x.RC.Conn.LocalAddr().String()
+			closeFn, local = x.Close, srv.Key(x.RC.Conn)
 		case "rtsp":
 			rc, err := ref.DialRtsp(e.s.RtspAddr(), 3*time.Second)
 			if err != nil {
@@ -1328,10 +1328,10 @@ func c03ForeignSubs(c *fw.Ctx, i int, hk string) {
 			if err != nil {
 				continue
 			}
-			closeFn, local = x.Close, x.Conn.LocalAddr().String()
+			closeFn, local = x.Close, srv.Key(x.Conn)
 		}
 		ev, ok := e.s.Notify.Wait(3*time.Second, from, func(ev srv.Event) bool {
-			return ev.Kind == "sub_start" && (local == "" || ev.RemoteAddr == local)
+			return ev.Kind == "sub_start" && (local == "" || e.s.Notify.Match(ev, local))
 		})
 		e.logf("foreign %s subscriber joined (admitted=%v)", kind, ok)
 		h.burst()
